@@ -28,7 +28,12 @@ METHODS = ['average', 'sum', 'last', 'max', 'min']
 
 def configs(tier, seed):
   n = 4 if tier == 'quick' else 12
-  return [dict(name='shard%d' % s, shard=s) for s in range(n)]
+  cfgs = [dict(name='shard%d' % s, shard=s) for s in range(n)]
+  # the daemon reloads its schema files from the reactor thread every minute while the writer thread may be creating
+  # a metric: whatever the interleaving, the file must be created under the old or under the new configuration
+  for s in range(2 if tier == 'quick' else 6):
+    cfgs.append(dict(name='reload-race/%d' % s, shard=s, mode='race'))
+  return cfgs
 
 
 def gen_sections(r, kind):
@@ -50,7 +55,85 @@ def gen_sections(r, kind):
   return secs
 
 
+def run_race(cfg, res):
+  from vlib import boot, cachesim, sched as S
+  from vlib.refs import schemas as refs
+  ns = boot.boot('carbon-cache', {'MAX_UPDATES_PER_SECOND': 'inf', 'MAX_CREATES_PER_MINUTE': 'inf', 'CACHE_WRITE_STRATEGY': 'sorted'})
+  world = cachesim.World(ns, trace_files=('writer.py', 'storage.py'))
+  import carbon.writer as writer
+  spath = os.path.join(ns.conf_dir, 'storage-schemas.conf')
+  apath = os.path.join(ns.conf_dir, 'storage-aggregation.conf')
+  r = gen.rng(cfg['seed'], 'C19race', cfg['name'])
+  names = ['servers.web1.cpu.user', 'a.b.count', 'stats.x']
+  for case in range(3 if cfg['tier'] == 'quick' else 10):
+    old_s, new_s = gen_sections(r, 'schema'), gen_sections(r, 'schema')
+    old_a, new_a = gen_sections(r, 'agg'), gen_sections(r, 'agg')
+    # a non-matching section in front, so that the loop is part-way through the list when the reload lands
+    front = '[zz_front]\npattern = ^nothing-matches-this$\nretentions = 1:1\n'
+    olds, news = front + '\n'.join(old_s), '\n'.join(new_s) if r.random() < 0.5 else front + front.replace('zz_front', 'zz2') + '\n'.join(new_s)
+    olda, newa = '\n'.join(old_a), '\n'.join(new_a)
+    ro, rn = refs.load_schemas(olds), refs.load_schemas(news)
+    ao, an = refs.load_aggregation(olda), refs.load_aggregation(newa)
+
+    def write(pth, text):
+      with open(pth, 'w') as f:
+        f.write(text)
+
+    def pre(h):
+      write(spath, olds)
+      write(apath, olda)
+      writer.reloadStorageSchemas()
+      writer.reloadAggregationSchemas()
+
+    def reload_now(h):
+      write(spath, news)
+      write(apath, newa)
+      writer.reloadStorageSchemas()          # what the two LoopingCalls do on the reactor thread
+      writer.reloadAggregationSchemas()
+    ops = [('store', nm, 999900) for nm in names] + [('call', reload_now), ('sleep', 3.0), ('stop',)]
+    seen = set()
+
+    def one(policy, desc):
+      h = world.run(ops, ('loop',), policy=policy, timeout=60, drain_rest=False, pre=pre)
+      res.count('race_schedules_executed')
+      if h.sched_error is not None:
+        res.inconc('%s: %s' % (type(h.sched_error).__name__, h.sched_error))
+        return h
+      creates = {e['metric']: e['args'] for e in h.backend if e['op'] == 'create'}
+      for nm in names:
+        res.count('race_create_evaluations')
+        allowed_r = [refs.retentions_for(ro, nm), refs.retentions_for(rn, nm)]
+        allowed_a = [tuple(refs.aggregation_for(ao, nm)), tuple(refs.aggregation_for(an, nm))]
+        wit = dict(old=olds, new=news, metric=nm, deviations=h.deviations)
+        if nm not in creates:
+          res.violation('race/no-create', 'metric %r was not created while the schemas were being reloaded (log errors %r) [%s dev=%r]' % (nm, h.log_errors[:2], desc, h.deviations), wit)
+          continue
+        ret, xff, meth = creates[nm]
+        if [tuple(x) for x in ret] not in [[tuple(x) for x in a] for a in allowed_r]:
+          res.violation('race/retentions-from-neither-file', 'metric %r created with retentions %r; old file says %r, new file says %r [%s dev=%r]' % (
+            nm, ret, allowed_r[0], allowed_r[1], desc, h.deviations), wit)
+        if (xff, meth) not in allowed_a:
+          res.violation('race/aggregation-from-neither-file', 'metric %r created with %r; old file says %r, new file says %r [%s dev=%r]' % (
+            nm, (xff, meth), allowed_a[0], allowed_a[1], desc, h.deviations), wit)
+      key = (case, h.trace_hash)
+      if key not in seen:
+        seen.add(key)
+        res.case(hash((cfg['name'],) + key), nontrivial=h.switches >= 2)
+      else:
+        res.evaluations += 1
+      return h
+    h0 = one(S.DeviationPolicy({}), 'baseline')
+    one(S.DeviationPolicy({0: 1}), 'mirror')
+    for d in range(0, h0.decisions + 2):
+      hi = one(S.DeviationPolicy({d: 1}), 'preempt@%d' % d)
+      for j in sorted(set(r.randrange(d + 1, hi.decisions + 2) for _ in range(2))) if hi.decisions + 1 > d else []:
+        one(S.DeviationPolicy({d: 1, j: 1}), 'preempt@%d,%d' % (d, j))
+    res.sample(dict(mode='reload-race', old=olds, new=news), cap=1)
+
+
 def run_config(cfg, res):
+  if cfg.get('mode') == 'race':
+    return run_race(cfg, res)
   from vlib import boot, memdb
   from vlib.refs import schemas as refs
   ns = boot.boot('carbon-cache', {'MAX_UPDATES_PER_SECOND': 'inf', 'MAX_CREATES_PER_MINUTE': 'inf', 'CACHE_WRITE_STRATEGY': 'sorted'})
@@ -131,7 +214,7 @@ def run_config(cfg, res):
 
 def finalize(merged, tier):
   c = merged['counters']
-  return [] if c.get('create_evaluations') and c.get('section_sets_fully_permuted') else ['no creates or no permuted sets observed']
+  return [] if c.get('create_evaluations') and c.get('section_sets_fully_permuted') and c.get('race_create_evaluations') else ['no creates, no permuted sets or no reload-race evaluations observed']
 
 
 def classify(v):
